@@ -273,10 +273,15 @@ class Ctx:
 
         if shrink_cap_s is None:
             shrink_cap_s = 45 if self.tier == 'quick' else 240
-        state = {'first_fail_t': None, 'best': None, 'failing': {}, 'stop_t': None, 'budget_hit': False}
+        state = {'first_fail_t': None, 'best': None, 'failing': {}, 'stop_t': None, 'budget_hit': False, 'calls': 0}
         t_start = time.time()
+        # Hypothesis always tries the all-minimal example first; with several shards of one clause only shard 0 evaluates it
+        skip_minimal = shard > 0
 
         def test(case):
+            state['calls'] += 1
+            if skip_minimal and state['calls'] == 1:
+                return
             if time_budget_s is not None and state['first_fail_t'] is None and time.time() - t_start > time_budget_s:
                 state['budget_hit'] = True
                 return
@@ -298,7 +303,7 @@ class Ctx:
                 raise AssertionError(res[1])
 
         st = settings(
-            max_examples=max_examples, database=None, deadline=None, derandomize=False,
+            max_examples=max_examples + (1 if skip_minimal else 0), database=None, deadline=None, derandomize=False,
             report_multiple_bugs=False, suppress_health_check=list(HealthCheck),
             phases=[Phase.generate, Phase.shrink], print_blob=False,
             verbosity=hypothesis.Verbosity.quiet,
